@@ -204,7 +204,7 @@ def run_shards(prop, modname, tier, seed, shards, jobs, shard_timeout):
         hs = shard.get("hashseed", seed + idx) if isinstance(shard, dict) else seed + idx
         lf = open(logp, "wb")
         p = subprocess.Popen([PY, "-X", "faulthandler", "-m", "vlib.run", "--shard", spec, "--out", out],
-                             cwd=VERIF, env=child_env(hs, shard.get("env") if isinstance(shard, dict) else None),
+                             cwd=VERIF, env=child_env(hs, dict((shard.get("env") or {}) if isinstance(shard, dict) else {}, VERIF_SHARD_INDEX=str(idx + seed))),
                              stdout=lf, stderr=subprocess.STDOUT)
         lf.close()
         procs.append((idx, p, out, time.time(), logp))
